@@ -329,6 +329,23 @@ pub static RELEASE_RUNS: std::sync::atomic::AtomicU64 = std::sync::atomic::Atomi
 /// data directory's file list - a function of the case, so a replay takes the same binary. `VERIF_PROFILE=dev|release` in the
 /// spec's environment pins the choice; runs under the fault-injection shim stay on the dev binary (their intercepted call
 /// sequences are compared with a recorded fault-free sequence of that binary).
+fn case_hash(data: &Path, spec: &RunSpec) -> [u8; 32] {
+    let mut listing: Vec<(String, u64)> = fs::read_dir(data).map(|rd| rd.flatten().map(|e| (e.file_name().to_string_lossy().into_owned(), e.metadata().map(|m| m.len()).unwrap_or(0))).collect()).unwrap_or_default();
+    listing.sort();
+    crate::hash::sha256(format!("{}{:?}", spec.describe(), listing).as_bytes())
+}
+
+/// The number of worker threads is a dimension as well: a run that asks for the default of the harness (2) gets 1, 2, 3 or 16
+/// workers, chosen by the same hash of the case (a single worker takes rayon's sequential paths, which a machine with one CPU
+/// or a container limited to one does all the time). Runs that name another count, and runs under the fault-injection shim,
+/// keep theirs.
+fn pick_threads(data: &Path, spec: &RunSpec) -> u32 {
+    if spec.threads != 2 || spec.env.iter().any(|(k, _)| k.starts_with("FAULTFS_") || k == "VERIF_THREADS_PIN") {
+        return spec.threads;
+    }
+    [1u32, 2, 3, 16][(case_hash(data, spec)[1] % 4) as usize]
+}
+
 fn pick_binary(bin: &Path, data: &Path, spec: &RunSpec) -> PathBuf {
     let release = match std::env::var("RBP_BIN_RELEASE") {
         Ok(p) if !p.is_empty() && Path::new(&p).exists() => PathBuf::from(p),
@@ -342,10 +359,7 @@ fn pick_binary(bin: &Path, data: &Path, spec: &RunSpec) -> PathBuf {
             if bin != subject_bin() || spec.env.iter().any(|(k, _)| k.starts_with("FAULTFS_")) {
                 false
             } else {
-                let mut listing: Vec<(String, u64)> = fs::read_dir(data).map(|rd| rd.flatten().map(|e| (e.file_name().to_string_lossy().into_owned(), e.metadata().map(|m| m.len()).unwrap_or(0))).collect()).unwrap_or_default();
-                listing.sort();
-                let key = format!("{}{:?}", spec.describe(), listing);
-                crate::hash::sha256(key.as_bytes())[0] % 4 == 0
+                case_hash(data, spec)[0] % 4 == 0
             }
         }
     };
@@ -366,8 +380,9 @@ pub fn run_bin(bin: &Path, data: &Path, dump: &Path, spec: &RunSpec) -> RunResul
         cmd.current_dir(c);
     }
     cmd.env_clear();
-    if spec.threads > 0 {
-        cmd.env("RAYON_NUM_THREADS", spec.threads.to_string());
+    let threads = pick_threads(data, spec);
+    if threads > 0 {
+        cmd.env("RAYON_NUM_THREADS", threads.to_string());
     }
     cmd.env("HOME", data);
     if spec.env.iter().any(|(k, v)| k == "VERIF_ARGV_FORM" && v == "5") {
@@ -441,12 +456,48 @@ pub fn run_bin(bin: &Path, data: &Path, dump: &Path, spec: &RunSpec) -> RunResul
             });
         }
     }
-    let out = match output_with_watchdog(&mut cmd, spec_timeout(spec)) {
+    // who listens, continued: VERIF_STDOUT_TTY hands the child a terminal (the slave side of a pseudo-terminal in raw mode, so that
+    // what is read from the master side is byte for byte what the program wrote) instead of a pipe
+    let mut tty_reader: Option<std::thread::JoinHandle<Vec<u8>>> = None;
+    if spec.env.iter().any(|(k, _)| k == "VERIF_STDOUT_TTY") {
+        use std::os::unix::io::FromRawFd;
+        let (mut m, mut sl) = (0i32, 0i32);
+        if unsafe { libc::openpty(&mut m, &mut sl, std::ptr::null_mut(), std::ptr::null_mut(), std::ptr::null_mut()) } == 0 {
+            unsafe {
+                let mut tio: libc::termios = std::mem::zeroed();
+                if libc::tcgetattr(sl, &mut tio) == 0 {
+                    libc::cfmakeraw(&mut tio);
+                    libc::tcsetattr(sl, libc::TCSANOW, &tio);
+                }
+                libc::fcntl(m, libc::F_SETFD, libc::FD_CLOEXEC);
+                libc::fcntl(sl, libc::F_SETFD, libc::FD_CLOEXEC);
+                cmd.stdout(Stdio::from_raw_fd(sl));
+            }
+            tty_reader = Some(std::thread::spawn(move || {
+                use std::io::Read;
+                let mut f = unsafe { fs::File::from_raw_fd(m) };
+                let mut all = Vec::new();
+                let mut buf = [0u8; 65536];
+                loop {
+                    match f.read(&mut buf) {
+                        Ok(0) | Err(_) => break, // EIO: every descriptor of the slave side is closed
+                        Ok(n) => all.extend_from_slice(&buf[..n]),
+                    }
+                }
+                all
+            }));
+        }
+    }
+    let mut out = match output_with_watchdog(&mut cmd, spec_timeout(spec)) {
         Ok(o) => o,
         Err(e) => {
             return RunResult { code: None, signal: None, stdout: String::new(), stderr: format!("SPAWN-ERROR {}", e), files: BTreeMap::new() };
         }
     };
+    drop(cmd); // releases the parent's descriptor of the terminal's slave side
+    if let Some(h) = tty_reader {
+        out.stdout = h.join().unwrap_or_default();
+    }
     RunResult {
         code: out.status.code(),
         signal: out.status.signal(),
